@@ -442,7 +442,7 @@ theorem modinfo_parse (b : SecBuf) (hI : b.Inv) (as : List Modinfo.Attr)
       have := encodeModinfo_length_ge as
       rw [← hc, h2] at this
       exact List.eq_nil_of_length_eq_zero (by simpa using this)
-    simp [Modinfo.parse, h1, this, pure, Except.pure]
+    simp [ModTie.parse_eq, h1, this, pure, Except.pure]
   · have hsplit : a = [] ++ (List.replicate 0 0 ++ (Spec.encodeModinfo as ++ a.drop b.size.toNat)) := by
       rw [← hc, ← h3]; simp
     have := parseLoop_spec as [] (a.drop b.size.toNat) 0 b.size 0 [] (b.size.toNat + 2)
@@ -450,7 +450,7 @@ theorem modinfo_parse (b : SecBuf) (hI : b.Inv) (as : List Modinfo.Attr)
         have := encodeModinfo_length_ge as
         rw [← hc, hl] at this; omega)
     rw [← hsplit] at this
-    simp only [Modinfo.parse, hd, this, List.nil_append]
+    simp only [ModTie.parse_eq, hd, this, List.nil_append]
 
 /-- the reference reader inverts the reference encoder -/
 theorem spec_parse_encode (as : List (Bytes × Bytes)) (hok : ∀ a ∈ as, Spec.AttrOk a) :
@@ -599,7 +599,7 @@ theorem verneed_get_eq_spec (e : Enc) (b s : SecBuf) (hI : b.Inv) (hS : s.Inv) (
   have o6 : Elfxx_Vernaux.vna_other_off = 6 := rfl
   have o7 : Elfxx_Vernaux.vna_name_off = 8 := rfl
   simp only [Nat.zero_add] at hax hloop
-  simp only [Verneed.getEntry, hg, Bool.false_eq_true, if_false, o1, o2, o3, o4, o5, o6, o7, hax, vr_aux_off0,
+  simp only [Verneed.getEntry, VerTie.vr_i_init_eq, hg, Bool.false_eq_true, if_false, o1, o2, o3, o4, o5, o6, o7, hax, vr_aux_off0,
     cv32_off, haxv, hloop, Nat.add_zero, hx1, hx2, hs1, hx3, hx4, hx5, hx6, hs2, bind, Except.bind, pure,
     Except.pure, vr_version, vr_hash, vr_flags, vr_other]
   rw [eq_ofNat_of_toNat _ _ hx1v, eq_ofNat_of_toNat _ _ hx3v, eq_ofNat_of_toNat _ _ hx4v,
@@ -642,7 +642,7 @@ theorem verdef_get_eq_spec (e : Enc) (b s : SecBuf) (hI : b.Inv) (hS : s.Inv) (n
   have o4 : Elfxx_Verdef.vd_hash_off = 8 := rfl
   have o5 : Elfxx_Verdaux.vda_name_off = 0 := rfl
   simp only [Nat.zero_add] at hax hloop
-  simp only [Verdef.getEntry, hg, Bool.false_eq_true, if_false, o1, o2, o3, o4, o5, hax, vd_aux_off0,
+  simp only [Verdef.getEntry, VerTie.vd_i_init_eq, hg, Bool.false_eq_true, if_false, o1, o2, o3, o4, o5, hax, vd_aux_off0,
     cv32_off, haxv, hloop, Nat.add_zero, hx1, hx2, hx3, hx4, hs1, bind, Except.bind, pure,
     Except.pure, vd_flags, vd_ndx, vd_hash]
   rw [eq_ofNat_of_toNat _ _ hx1v, eq_ofNat_of_toNat _ _ hx2v, eq_ofNat_of_toNat _ _ hx3v]
